@@ -189,6 +189,8 @@ def analyse(modinfo):
             nm = f.id if isinstance(f, _ast.Name) else (f.attr if isinstance(f, _ast.Attribute) else '')
             if nm in ('column', 'function', 'register', 'aggregator', 'unaryop', 'binaryop'):
                 todo.append(key)
+            if nm in ('property', 'cached_property'):
+                todo.append(key)        # reached by an attribute read, which the name-based call graph does not see
     dyn_added = False
     while todo:
         key = todo.pop()
@@ -263,6 +265,9 @@ def analyse(modinfo):
                     ca = class_level(n.func)
                     if ca is not None and key[1].rsplit('.', 1)[-1] not in ('__init__', '__post_init__'):
                         sites.append((qual, f'classattr:self.{ca}', n.lineno, None))
+                    elif base.id in alias and base.id not in fresh and isinstance(n.func.value, _ast.Name):
+                        # `x = self.attr; x.sort()`: the object mutated is the one the instance holds
+                        sites.append((qual, f'mut:self.{alias[base.id]}.{n.func.attr}', n.lineno, _classify('self', n.func.value, cls, params, fresh, key)))
                     else:
                         sites.append((qual, f'mut:{_ast.unparse(n.func)}', n.lineno, _classify(base.id, n.func.value, cls, params, fresh, key)))
             if isinstance(n, _ast.Call) and isinstance(n.func, _ast.Name) and n.func.id == 'setattr':
